@@ -333,8 +333,9 @@ class Check:
         ev = {"property_id": self.pid, "tier": self.tier, "seed": self.seed, "level": self.level,
               "coverage": cov, "assumptions": self.assumptions, "wall_s": round(wall, 2),
               "violations": len(self.violations)}
-        (VERIF / "evidence").mkdir(exist_ok=True)
-        (VERIF / "evidence" / ("%s.json" % self.pid)).write_text(json.dumps(ev, indent=1, default=str) + "\n")
+        evdir = VERIF / ("evidence" if self.pid.startswith("C") else "evidence_ext")   # X..: checks beyond the listed properties
+        evdir.mkdir(exist_ok=True)
+        (evdir / ("%s.json" % self.pid)).write_text(json.dumps(ev, indent=1, default=str) + "\n")
         for key, what in sorted(self.known_hits.items()):
             print("KNOWN-FINDING: property=%s %s [%s]" % (self.pid, self.known_open[key].get("what", what), key))
         stale = [k for k in self.known_open if k not in self.known_hits]
